@@ -80,6 +80,12 @@ type Case struct {
 	Pad int `json:"pad,omitempty"`
 	Inputs  []string `json:"inputs"`
 	Scripts [][]Op   `json:"scripts"`
+	// Keys: "" = one AES key for all garblings of the case; "fresh" = every
+	// garbling has its own key in its own slice; "buffer" = every garbling
+	// has its own key, written into the one key buffer its goroutine keeps
+	// (Garble and Eval then see a slice whose contents change between
+	// calls).
+	Keys string `json:"keys,omitempty"`
 }
 
 func init() { ev.Register("share", run) }
@@ -146,6 +152,7 @@ func genCase(t *rapid.T) Case {
 	cs.KeyLen = rapid.SampledFrom([]int{16, 24, 32}).Draw(t, "keylen")
 	cs.Seed = rapid.Uint64().Draw(t, "seed")
 	cs.Warm = rapid.SampledFrom([]int{0, 0, 0, 1, 2}).Draw(t, "warm")
+	cs.Keys = rapid.SampledFrom([]string{"", "fresh", "buffer", "buffer"}).Draw(t, "keys")
 
 	nin := cs.Circ.NumIn()
 	ninputs := rapid.IntRange(1, 4).Draw(t, "ninputs")
@@ -232,6 +239,7 @@ type rec struct {
 	due    int
 	failed bool // Garble returned an error
 
+	key   []byte // private copy of the AES key of this garbling
 	g     *circuit.Garbled
 	r     ot.Label
 	wires []ot.Wire
@@ -270,6 +278,7 @@ type worker struct {
 	pending []*rec
 	fail    *failure
 	calls   int
+	keybuf  []byte // Keys == "buffer"
 }
 
 func (k *worker) failf(sig, format string, a ...interface{}) {
@@ -290,13 +299,23 @@ func poolOf(g *circuit.Garbled) uintptr {
 
 // garble makes one Garble call and snapshots the result.
 func (w *world) garble(circ *circuit.Circuit, gi, oi int, kind string,
-	failAt int) (*rec, *failure) {
+	failAt int, keybuf []byte) (*rec, *failure) {
 
 	r := &rec{gi: gi, oi: oi, kind: kind, failAt: failAt}
+	r.key = w.key
+	key := w.key
+	if w.cs.Keys == "fresh" || w.cs.Keys == "buffer" {
+		r.key = gen.NewDRBG(w.cs.Seed, stream(gi, oi)+500000).Bytes(w.cs.KeyLen)
+		key = append([]byte(nil), r.key...)
+		if keybuf != nil {
+			copy(keybuf, r.key)
+			key = keybuf
+		}
+	}
 	rd := &gen.LabelReader{D: gen.NewDRBG(w.cs.Seed, stream(gi, oi)),
 		FailAt: failAt}
 	r.tCall = w.now()
-	g, err := circ.Garble(rd, w.key)
+	g, err := circ.Garble(rd, key)
 	r.tLive = w.now()
 	if err != nil {
 		// Like every real caller, ignore the value when err != nil.
@@ -366,13 +385,18 @@ func diff(r ot.Label, wires []ot.Wire, gates [][]ot.Label, sr ot.Label,
 }
 
 // evalCheck evaluates the garbling on input number in and decodes the outputs.
-func (w *world) evalCheck(r *rec, in int) *failure {
+func (w *world) evalCheck(r *rec, in int, keybuf []byte) *failure {
 	g := r.g
+	key := append([]byte(nil), r.key...)
+	if keybuf != nil {
+		copy(keybuf, r.key)
+		key = keybuf
+	}
 	wires := make([]ot.Label, w.nw)
 	for i := 0; i < w.nin; i++ {
 		wires[i] = circuit.LabelForBit(g.Wires[i], w.ins[in][i])
 	}
-	if err := w.circ.Eval(w.key, wires, g.Gates); err != nil {
+	if err := w.circ.Eval(key, wires, g.Gates); err != nil {
 		return &failure{"eval/error", fmt.Sprintf("%s: Eval on input %s: %v",
 			r.name(), w.cs.Inputs[in], err)}
 	}
@@ -400,7 +424,7 @@ func (k *worker) finish(r *rec, y int) {
 			"%s: garbling changed between Garble and its Release (%s): a live garbling's buffers were written by someone else",
 			r.name(), d)
 	}
-	if f := w.evalCheck(r, r.in); f != nil && k.fail == nil {
+	if f := w.evalCheck(r, r.in, k.keybuf); f != nil && k.fail == nil {
 		k.fail = f
 	}
 	k.calls++
@@ -462,7 +486,7 @@ func (k *worker) script(ops []Op) {
 			if op.K == opFail {
 				fa = op.Fail
 			}
-			r, f := w.garble(w.circ, k.gi, oi, op.K, fa)
+			r, f := w.garble(w.circ, k.gi, oi, op.K, fa, k.keybuf)
 			k.calls++
 			k.recs = append(k.recs, r)
 			r.in = op.In
@@ -575,7 +599,7 @@ func run(cs Case) ev.Outcome {
 	// Warm-up: the pool exists and holds released scratch before the start.
 	warmPtrs := map[uintptr]bool{}
 	for i := 0; i < cs.Warm; i++ {
-		r, f := w.garble(w.circ, 999, i, "warm", 0)
+		r, f := w.garble(w.circ, 999, i, "warm", 0, nil)
 		if f != nil {
 			return fail(f)
 		}
@@ -594,6 +618,9 @@ func run(cs Case) ev.Outcome {
 	var wg sync.WaitGroup
 	for gi := range cs.Scripts {
 		k := &worker{w: w, gi: gi}
+		if cs.Keys == "buffer" {
+			k.keybuf = make([]byte, cs.KeyLen)
+		}
 		workers[gi] = k
 		wg.Add(1)
 		go func(ops []Op) {
@@ -663,7 +690,7 @@ func run(cs Case) ev.Outcome {
 	// (4) every call equals the same call made alone on an unshared circuit.
 	alone := c.Build()
 	for _, r := range all {
-		a, f := w.garble(alone, r.gi, r.oi, r.kind, r.failAt)
+		a, f := w.garble(alone, r.gi, r.oi, r.kind, r.failAt, nil)
 		if f != nil {
 			return fail(&failure{"alone/" + f.sig, "single-goroutine run: " + f.msg})
 		}
@@ -749,6 +776,7 @@ func run(cs Case) ev.Outcome {
 	}
 
 	var classes []string
+	classes = append(classes, "keys="+map[string]string{"": "one-shared", "fresh": "per-garbling", "buffer": "per-goroutine-buffer"}[cs.Keys])
 	switch g := len(cs.Scripts); {
 	case g <= 2:
 		classes = append(classes, "G=2")
